@@ -65,6 +65,12 @@ class Flat:
                 else:
                     val = self.canon(v)
                 self.effects[(tkey(root), tuple(tkey(k) for k in path))] = (root, path, val, e[5] if len(e) > 5 else None)
+            elif e[0] == "setdefault":
+                # d[..].setdefault(k, v) as a statement: the slot is written when it did not exist ("first value wins") - the same effect as
+                # `if k not in d[..]: d[..][k] = v`, which is how the rules below read an entry that is recorded once
+                root, path = self.resolve(e[1])
+                path = path + (e[2],)
+                self.effects.setdefault((tkey(root), tuple(tkey(k) for k in path)), (root, path, self.canon(e[3]), e[4] if len(e) > 4 else None))
             elif e[0] == "cond":
                 c = self.canon(e[1])
                 from ..norm import mk_not
